@@ -31,12 +31,17 @@ Cands(s, t, inv) ==
   IF inv THEN (IF CanStart(s, t) THEN {Start(s, t)} \cup Acts(Start(s, t), t) ELSE {})
          ELSE {s} \cup Acts(s, t)
 
+\* internal state read by the harness after the step (dispatch table, lock holders, shutdown flag)
+Peek(y, x) == /\ { h \in y.disp : h < 100 } = { x.subs[k] : k \in DOMAIN x.subs }
+              /\ Cardinality({ h \in y.disp : h >= 100 }) = x.ncb
+              /\ (y.dl # 0) = x.dl /\ (y.sl # 0) = x.sl /\ y.shut = x.shut
+
 ConfSucc(s) ==
   LET t == Line.act.t  o == Line.obs IN
   { IF o.fin THEN Fin(x, t) ELSE x :
        x \in { y \in Cands(s, t, o.inv) : /\ y.panic = o.panic
-                                          /\ ClosedView(y) = o.cl /\ y.got = o.got
-                                          /\ (o.fin => CanFin(y, t)) } }
+                                          /\ o.panic = "" => /\ ClosedView(y) = o.cl /\ y.got = o.got
+                                                             /\ (o.fin => CanFin(y, t)) /\ Peek(y, o.x) } }
 
 Step ==
   /\ l <= Len(Trace)
